@@ -128,6 +128,8 @@ type Obj struct {
 	Tags  []string
 	Nums  []int
 	Inner *Inner
+	Kids  []*Inner
+	KM    map[string]*Inner
 	rt    *Runtime
 }
 
@@ -209,6 +211,13 @@ type Page struct {
 type Inner struct {
 	Label string
 	Depth int
+	Kids  []*Inner
+}
+
+// kids: slice-of-struct fields reached as obj.Kids[i].Label (an indexed FIELD followed by a member: plush evaluates
+// that through a scope of its own)
+func kids(v int) []*Inner {
+	return []*Inner{{Label: "k0v" + fmt.Sprint(v), Depth: 1}, {Label: "k<1", Depth: 2, Kids: []*Inner{{Label: "kk" + fmt.Sprint(v)}}}}
 }
 
 func (o *Obj) Self() *Obj            { return o }
@@ -299,13 +308,13 @@ func (rt *Runtime) plainData() map[string]interface{} {
 		"mi":  map[string]int{"k1": 1, "k2": 2, "k3": 3, "k4": 4},
 		"one": map[string]int{"only": 1},
 		"m1":  map[string]interface{}{"n": 5, "s": "str", "b": true},
-		"obj": &Obj{Name: "bot", N: 9, On: true, Tags: []string{"t1", "t<2"}, Nums: []int{1, 2, 3}, Inner: &Inner{Label: "in", Depth: 2}, rt: rt},
+		"obj": &Obj{Name: "bot", N: 9, On: true, Tags: []string{"t1", "t<2"}, Nums: []int{1, 2, 3}, Inner: &Inner{Label: "in", Depth: 2, Kids: kids(v)}, Kids: kids(v), KM: map[string]*Inner{"a": kids(v)[0]}, rt: rt},
 		"tm":  fixedTime,
 		"objs": []*Obj{
 			{Name: "o0", N: 10, Tags: []string{"a0", "b0"}, Nums: []int{7, 8, 9}, Inner: &Inner{Label: "i0", Depth: 0}, rt: rt},
 			{Name: "o1", N: 11, Tags: []string{"a1", "b1"}, Nums: []int{7, 8, 9}, Inner: &Inner{Label: "i1", Depth: 1}, rt: rt},
 		},
-		"om":   map[string]*Obj{"x": {Name: "ox", N: 12, rt: rt}},
+		"om":   map[string]*Obj{"x": {Name: "ox", N: 12, Kids: kids(v), rt: rt}},
 		"vobj": VObj{Name: "val", rt: rt},
 		"dv":   Dual{Label: "val" + fmt.Sprint(v), Bal: 12 + v},
 		"dp":   &Dual{Label: "ptr" + fmt.Sprint(v), Bal: 40 + v},
